@@ -135,6 +135,28 @@ var failures = []failure{
 		}
 		kit.Count("dial-retried")
 	}},
+	{"dial-fails-then-retry-same-dialer", nil, func(w *world) {
+		// a synchronous Dial that failed (nobody listening, then a handshake failure) has started
+		// nothing; once the cause is gone, Dial on the same Dialer object connects
+		w.n++
+		addr := fmt.Sprintf("c12-redial%d", w.n)
+		ep := vt.Get(addr)
+		ep.Script(vt.DialOK, vt.DialRefused, vt.DialHandshake)
+		d, err := w.x.S.NewDialer("vt://"+addr, map[string]interface{}{mangos.OptionDialAsynch: false})
+		if err != nil {
+			kit.Failf("newdialer", "NewDialer: %s", kit.ErrName(err))
+		}
+		expect("Dialer.Dial(refused)", call("Dial-refused", 0, d.Dial), mangos.ErrConnRefused)
+		expect("Dialer.Dial(handshake failure)", call("Dial-hs", 0, d.Dial), vt.ErrHandshake)
+		if err := call("Dial-retry", 0, d.Dial); err != nil {
+			kit.Failf("dial-retry-same-dialer-failed", "a synchronous Dial failed twice (refused, handshake failure) and nothing is running; after the cause was corrected Dial on the same Dialer still fails: %s", kit.ErrName(err))
+		}
+		kit.Quiesce()
+		if ep.NumPipes() == 0 {
+			kit.Failf("dial-retry-same-dialer-failed", "the retried Dial returned nil but no connection was made")
+		}
+		kit.Count("dial-retried-on-the-same-dialer")
+	}},
 	{"dial-handshake-failure", nil, func(w *world) {
 		ep := vt.Get("c12-hs")
 		ep.Script(vt.DialOK, vt.DialHandshake)
